@@ -77,6 +77,10 @@ def reserved_shapes(t, str_form, top=True):
         out += reserved_shapes(v, str_form, False)
     elif 'o' in t:
       for k, v in t['a']:
+        if k == TYPE_KEY:
+          out.append('type-key')
+        elif str_form and k.startswith('n_:'):
+          out.append('int-key-prefix')
         if not (isinstance(v, dict) and 'm' in v):
           out += reserved_shapes(v, str_form, False)
   return out
@@ -438,6 +442,23 @@ def gen_messy_store_case(rng):
       ops.append({'k': k, 'p': p})
   return {'kind': 'store', 'ops': ops, 'messy': True}
 
+
+# Stand-alone typed containers: (python constructor in _Impl.typed_value, model description)
+TYPED_MODEL = {
+    0: {'op': 'typed_list', 'elem': 'int', 'max': 3, 'items': [1, 2], 'appends': ['zz', 3, None]},
+    1: {'op': 'typed_dict', 'ap': True,
+        'fields': [_f('x', 'int'), _f('z', 'int', default=3)],
+        'items': [['x', 1], ['z', 3]],
+        'writes': [['nope', 1], ['x', 's'], ['x', 7], ['z', None], ['z', 9]]},
+    2: {'op': 'typed_dict', 'ap': True,
+        'fields': [_f('x', 'int'), _f('y', 'int', default=5, frozen=True)],
+        'items': [['x', 1], ['y', 5]],
+        'writes': [['y', 6], ['y', 5], ['x', 2], ['q', 1]]},
+    3: {'op': 'typed_dict', 'ap': True,
+        'fields': [_f('x', 'int'), _f('z', 'int', default=3)],
+        'items': [['x', {'m': 1}], ['z', 2]],
+        'writes': [['x', 4], ['x', 's'], ['w', 1]]},
+}
 
 SPEC_ATOMS = [['Int', {}], ['Int', {'min_value': 0}], ['Int', {'default': 3, 'max_value': 9}],
               ['Str', {}], ['Str', {'regex': 'a.*'}], ['Str', {'default': 'foo'}],
@@ -955,6 +976,25 @@ class _Impl:
           lambda: pg.Dict.partial(z=2, value_spec=vs.Dict([('x', vs.Int()), ('z', vs.Int(default=3))])),
           lambda: pg.Dict(k1=1, k2=2, value_spec=vs.Dict([(vs.StrKey('k.*'), vs.Int())])),
       ][case['expr']]()
+      tm = TYPED_MODEL.get(case['expr'])
+      if tm is not None:
+        # observables the Lean model of typed containers predicts
+        if self.to_wire(v) != ({'l': tm['items']} if tm['op'] == 'typed_list' else {'d': tm['items']}):
+          raise AssertionError('TYPED_MODEL out of sync: %s' % self.to_wire(v))
+        loaded = self.attempt(lambda: pg.from_json(pg.to_json(v), allow_partial=True))
+        outcomes = []
+        for w in (tm['appends'] if tm['op'] == 'typed_list' else tm['writes']):
+          c = pg.clone(v, deep=True)
+          if tm['op'] == 'typed_list':
+            r = self.attempt(lambda: c.append(self.build(w)))
+          else:
+            r = self.attempt(lambda: c.__setitem__(w[0], self.build(w[1])))
+          outcomes.append(r.get('err', 'ok'))
+        typed_model = {'json': self.jv_wire(pg.to_json(v)),
+                       'rt': {'ok': self.to_wire(loaded['ok'])} if 'ok' in loaded else loaded,
+                       'writes': outcomes}
+      else:
+        typed_model = None
       for form, f in (('obj', lambda: pg.from_json(pg.to_json(v), allow_partial=True)),
                       ('str', lambda: pg.from_json_str(pg.to_json_str(v), allow_partial=True))):
         res = self.attempt(f)
@@ -975,7 +1015,10 @@ class _Impl:
           problems.append('%s raises %s' % (name, res['err']))
         elif res['ok'] != v:
           problems.append('%s differs' % name)
-    return {'problems': problems, 'sig': sig}
+    out = {'problems': problems, 'sig': sig}
+    if what == 'typed':
+      out['typed_model'] = typed_model
+    return out
 
 
 # ------------------------------------------------------------------------------------------
@@ -1005,13 +1048,17 @@ class C05(Prop):
       'modelled, not verified: to_json / from_json / Object.__init__ binding for field kinds '
       'Any Bool Int Str List Dict Object, `n_:` key coding incl. int() on ASCII, MemoryFileSystem '
       '(_internal_path, _locate, mkdirs, open w/a, read), LineSequence; tied by correspondence',
+      'stand-alone typed containers: modelled for const-key Dict / List with the field kinds above '
+      '(sym_jsonify schema branch, schema-backed writes), tied by 4 fixed correspondence cases',
       'outside the model (oracle only): typed containers with rich specs, Tuple/Enum/Float/Union fields, '
-      'value specs, schemas, geno specs, DNA, functions / classes by name, MemorySequence (.mem), '
-      'opaque-object fallback (pickle in base64)',
+      'value specs (argument-record level only: T-SIG table + C05_sig_roundtrip), schemas, geno specs, DNA, '
+      'functions / classes by name, MemorySequence (.mem), opaque-object fallback (pickle in base64)',
   ]
   assumptions = ['a Python dict has distinct keys (Conforms: keysNodup)',
                  'objects satisfy their class schema when built by the library (C03), i.e. `Conforms`',
-                 'store histories use paths whose component lists are prefix-free (a file is never inside a file)']
+                 'store theorems: paths are well located (PathOK; proved for canonical "/mem/d1/../name" strings) '
+                 'and their locations prefix-free (a file is never inside a file); raw writefile / mkdirs / '
+                 'exists / listdir and the error paths are correspondence only']
 
   _impl = None
 
@@ -1114,6 +1161,8 @@ class C05(Prop):
       return {'op': 'store', 'cfg': 'patched', 'ops': ops}
     if k == 'spec' and case['what'] == 'spec':
       return {'op': 'sig'}
+    if k == 'spec' and case['what'] == 'typed' and case['expr'] in TYPED_MODEL:
+      return TYPED_MODEL[case['expr']]
     return None
 
   def compare(self, case, impl_out, model_out):
@@ -1146,6 +1195,9 @@ class C05(Prop):
           if x != y:
             return 'op %d %s: impl=%s model=%s' % (i, json.dumps(case['ops'][i])[:120], json.dumps(x)[:200], json.dumps(y)[:200])
       return None
+    if k == 'spec' and case['what'] == 'typed':
+      a, b = impl_out['typed_model'], model_out
+      return None if a == b else 'typed container: impl=%s model=%s' % (json.dumps(a)[:300], json.dumps(b)[:300])
     if k == 'spec':
       # T-SIG cross-check: the keys a real spec emits are keys of the extracted table
       cls, keys = impl_out['sig']
